@@ -51,9 +51,16 @@ def check_one(src: str, mode: str = "exec", variant: str = "shipped"):
     return {"ok": "other", "k": k, "cls": o.get("cls")}  # C03's business
 
 
-def classify(o):
+BACKSLASH_ONLY_LINE = re.compile(r"(^|\n)[ \t\f]*\\\r?\n")
+
+
+def classify(o, src=""):
     """Known-finding classes, decided from CPython's own diagnosis of the input."""
     cls, msg = o.get("cpython") or (None, "")
+    if cls == "IndentationError" and BACKSLASH_ONLY_LINE.search(src):
+        return "KF-C02-backslash-only-line"
+    if cls == "SyntaxError" and (msg or "").startswith("f-string:"):
+        return "KF-C02-fstring-diagnostics"
     if cls == "TabError":
         return "KF-C02-tab-consistency"
     if cls == "SyntaxError" and re.fullmatch(r"invalid (decimal|hexadecimal|octal|binary|imaginary) literal", msg or ""):
@@ -152,6 +159,19 @@ def build_inputs(tier):
                     cases.append(("complex-pattern", f"match v:\n    case {{{sign}{a}{op}{b}: y}}:\n        pass\n"))
     for s in corpus.pattern_spellings() + corpus.string_mixes():
         cases.append(("table", s))
+    # witnesses of the recorded findings, and their neighbourhood: a line holding nothing but a continuation backslash before
+    # an indented line; f-strings CPython refuses with its own "f-string: ..." diagnostics
+    for s in ["\\\n  x = 1\n", "x = 1\n\\\n  y = 2\n", "if x:\n  pass\n\\\n    pass\n", "if x:\n    pass\n  \\\n      pass\n", "\\\nx = 1\n", "x = 1\n\\\n\ny = 2\n",
+              "f'a}'\n", "f'{a}}'\n", "f'{{a}'\n", "f'}'\n", "f'{a:}}'\n", "f'{a:{b:{c:{d}}}}'\n", "x = f'{a'\n", "f'{}'\n", "f'{a b}'\n", "f'{a:{}}'\n", "f'{=}'\n", "f'{a!}'\n".replace("!", ""), "f'{a!x}'\n".replace("!", "")]:
+        cases.append(("kf-neighbourhood", s))
+    for p in progs[: (60 if tier == "quick" else 3000)] + nested:
+        lines = p.split("\n")
+        for i in range(1, len(lines)):
+            if lines[i].startswith((" ", "\t")) and lines[i].strip():
+                ind = lines[i][: len(lines[i]) - len(lines[i].lstrip())]
+                cases.append(("backslash-only-line", "\n".join(lines[:i] + ["\\"] + [ind + "  " + lines[i].lstrip()] + lines[i + 1 :])))
+                cases.append(("backslash-only-line", "\n".join(lines[:i] + [ind + "\\"] + [ind + "    " + lines[i].lstrip()] + lines[i + 1 :])))
+                break
     for rc in corpus.regress("C02"):
         cases.insert(0, ("regress", rc["src"]))
     out = []
@@ -193,7 +213,7 @@ def run(rep, tier, pool, variants=("shipped",)):
                     rep.count(kind + ":" + o["ok"])
                     continue
                 rep.case(src, True)
-                fid = classify(o)
+                fid = classify(o, src)
                 if fid:
                     rep.known(fid, f"{short(src, 60)}")
                     continue
